@@ -271,6 +271,15 @@ func (d *Driver) Run() int {
 	if d.Only < 0 && agg.CasesDone == 0 {
 		unmet = append(unmet, "no case completed")
 	}
+	// every planned case ended (completed, or died and was attributed, or timed out and was counted):
+	// a stride lost with its worker (binary or work directory gone, fork failure) is not "held"
+	lostInc := 0
+	for _, v := range agg.Inconc {
+		lostInc += v
+	}
+	if d.Only < 0 && agg.CasesDone > 0 && agg.CasesDone+agg.Crashes+lostInc < n {
+		unmet = append(unmet, fmt.Sprintf("only %d of %d cases ended (%d attributed deaths): worker strides were lost", agg.CasesDone, n, agg.Crashes))
+	}
 
 	// evidence
 	if d.Only < 0 {
